@@ -889,7 +889,14 @@ pub fn exec(s: &J) -> J {
                     };
                     // bytes -> serde -> tree
                     let a5 = guard(|| match jsonb::to_serde_json(i0) { Ok(j) => { let back: Value = j.into(); r_doc(&back) }, Err(e) => r_err(&e) });
-                    json!({"t":"serdeinfo","bytes":a1,"object":a2,"tree":a3,"tree_back":a4,"bytes_back":a5,"text":bytes_to_j(jsonb::to_string(i0).as_bytes())})
+                    // tree -> the crate's own encoder -> serde
+                    let a6 = match &v {
+                        Some(v) => { let vv = v.clone(); guard(|| match jsonb::to_serde_json(&vv.to_vec()) { Ok(j) => json!({"t":"serde","v":serde_to_j(&j)}), Err(e) => r_err(&e) }) }
+                        None => J::Null,
+                    };
+                    let mut m = json!({"t":"serdeinfo","bytes":a1,"object":a2,"tree":a3,"tree_back":a4,"bytes_back":a5,"text":bytes_to_j(jsonb::to_string(i0).as_bytes())});
+                    if !a6.is_null() { m["enc"] = a6; }
+                    m
                 }),
             );
         }
